@@ -539,10 +539,11 @@ func (fr *Frame) loopVars(li *loopInfo, st State, phiVal func(*ssa.Phi) Value) m
 	for k, v := range fr.lets {
 		vars[k] = v
 	}
-	// parameters
+	// parameters (name = current value, name0 = value at entry)
 	for i, p := range fr.fn.Params {
 		if sv, ok := x.specVarOf(fr.params[i], "inv"); ok {
 			vars[p.Name()] = sv
+			vars[p.Name()+"0"] = sv
 		}
 	}
 	// debug names defined outside the loop (unique) or allocs
